@@ -74,6 +74,21 @@ def diffable : E → Bool
   | .neg a | .npow a _ | .powq a _ _ | .sqrt a | .cbrt a => diffable a
   | .pow _ _ | .abs _ => false
 
+/-- every divisor occurring in an expression (side condition of the derivative theorems: the traced code never
+divides by zero at the point considered) -/
+def divisors : E → List E
+  | .var _ | .rat _ _ | .c2 | .c3 | .c6 => []
+  | .add a b | .sub a b | .mul a b | .pow a b => divisors a ++ divisors b
+  | .div a b => b :: (divisors a ++ divisors b)
+  | .neg a | .npow a _ | .abs a => divisors a
+  | .powq a _ _ => a :: divisors a            -- d pow(u,q) divides by u
+  | .sqrt a => .sqrt a :: divisors a          -- d sqrt u divides by sqrt u
+  | .cbrt a => .cbrt a :: divisors a          -- d cbrt u divides by cbrt u
+
+/-- all divisors of `e` (and those introduced by differentiating it) are nonzero at `ρ` -/
+def regular (c c3 : K) (fn : Fns K) (ρ : Nat → K) (e : E) : Prop :=
+  ∀ d ∈ divisors e, eval c c3 fn ρ d ≠ 0
+
 /-- environments: the list of input values, and the unit direction along input `j` -/
 def env (l : List K) : Nat → K := fun i => l.getD i 0
 def dir (j : Nat) : Nat → K := fun i => if i = j then 1 else 0
